@@ -73,6 +73,26 @@ fn vcodec(s: &str) -> VideoCodec {
         _ => panic!("vcodec"),
     }
 }
+fn vcodec_s(c: VideoCodec) -> &'static str {
+    match c {
+        VideoCodec::H264 => "h264",
+        VideoCodec::H265 => "h265",
+        VideoCodec::Av1 => "av1",
+        VideoCodec::Vp9 => "vp9",
+    }
+}
+fn acodec_s(c: AudioCodec) -> &'static str {
+    match c {
+        AudioCodec::Aac(AacProfile::Lc) => "aac-lc",
+        AudioCodec::Aac(AacProfile::Main) => "aac-main",
+        AudioCodec::Aac(AacProfile::Ssr) => "aac-ssr",
+        AudioCodec::Aac(AacProfile::Ltp) => "aac-ltp",
+        AudioCodec::Aac(AacProfile::He) => "aac-he",
+        AudioCodec::Aac(AacProfile::Hev2) => "aac-hev2",
+        AudioCodec::Opus => "opus",
+        AudioCodec::None => "none",
+    }
+}
 fn acodec(s: &str) -> AudioCodec {
     match s {
         "aac-lc" => AudioCodec::Aac(AacProfile::Lc),
@@ -343,6 +363,16 @@ fn run_fn(name: &str, args: &[&str]) -> String {
             Err(e) => format!("err other {}", e),
         },
         "is_valid_vp9_frame" => s01(is_valid_vp9_frame(&d())).into(),
+        "parse_video_codec" => match String::from_utf8(d()) {
+            Ok(t) => opt(t.parse::<VideoCodec>().ok(), |c| vcodec_s(c).to_string()),
+            Err(_) => "not-utf8".into(),
+        },
+        "parse_audio_codec" => match String::from_utf8(d()) {
+            Ok(t) => opt(t.parse::<AudioCodec>().ok(), |c| acodec_s(c).to_string()),
+            Err(_) => "not-utf8".into(),
+        },
+        "video_codec_name" => hex_of_bytes(vcodec(args[0]).to_string().as_bytes()),
+        "audio_codec_name" => hex_of_bytes(acodec(args[0]).to_string().as_bytes()),
         "validate_video_config" => vres(&validate_video_config(vcodec(args[0]), num(args[1]) as u32, num(args[2]) as u32, f64_of(args[3]))),
         "validate_audio_config" => vres(&validate_audio_config(acodec(args[0]), num(args[1]) as u32, num(args[2]) as u8)),
         "validate_video_frame" => vres(&validate_video_frame(vcodec(args[0]), &bytes_of_hex(args[1]), args[2] == "1")),
